@@ -123,7 +123,10 @@ def run_one(ch, cfg):
     # ---- uiHeartbeat walk policy
     walk = ch.weighted([(6, "benign"), (1, "slow-boot-1"), (1, "wrong-mode-1"), (1, "slow-boot-2"),
                         (1, "wrong-mode-2"), (1, "timeout-death-1"), (1, "timeout-death-2"),
-                        (1, "start-in-uihb"), (1, "mode-byte-ff")], "walk")
+                        (1, "start-in-uihb"), (1, "mode-byte-ff"),
+                        # two deviations at once: the device is not back when the manager re-opens it
+                        # *and* it comes back in another mode than expected
+                        (1, "slow-wrong-1"), (1, "slow-wrong-2")], "walk")
     dcfg = {"state": state, "params": params, "hb": hb}
     d1 = ch.pick([0.2, 0.0, 0.9, 0.99], "walk.d1")
     d2 = ch.pick([0.2, 0.0, 0.9, 0.99], "walk.d2")
@@ -136,6 +139,12 @@ def run_one(ch, cfg):
     elif walk == "slow-boot-2":
         e2["delay"] = ch.pick([1.5, 30.0, 1.01], "walk.slow")
     elif walk == "wrong-mode-2":
+        e2["mode"] = ch.pick([L.MODE_UI_HEARTBEAT, L.MODE_BOOTLOADER, 0x00], "walk.wm")
+    elif walk == "slow-wrong-1":
+        e1["delay"] = ch.pick([1.5, 30.0, 1.01], "walk.slow")
+        e1["mode"] = ch.pick([L.MODE_SIGNER, L.MODE_BOOTLOADER, 0x00], "walk.wm")
+    elif walk == "slow-wrong-2":
+        e2["delay"] = ch.pick([1.5, 30.0, 1.01], "walk.slow")
         e2["mode"] = ch.pick([L.MODE_UI_HEARTBEAT, L.MODE_BOOTLOADER, 0x00], "walk.wm")
     elif walk == "timeout-death-1":
         e1["silence"] = "timeout"
